@@ -88,6 +88,8 @@ class C10(Prop):
             msgs = []
             for i, p in enumerate(pieces):
                 m = {"type": "http.request", "body": p, "more_body": i < len(pieces) - 1, "delay": t.choice(MSG_DELAYS)}
+                if t.draw(6) == 0:
+                    m["as_bytearray"] = True      # some servers hand over their receive buffer
                 omit = []
                 if not p and t.draw(3) == 0:
                     omit.append("body")
@@ -315,6 +317,8 @@ class C10(Prop):
                 continue
             # successful results
             if op == "body":
+                if type(val) is not bytes:
+                    ctx.violate("C10|%s|body-not-bytes|%s" % (where, type(val).__name__), "request.body returned a %s" % type(val).__name__)
                 if val != body:
                     ctx.violate("C10|%s|wrong-body" % where, "got %r expected %r" % (val[:80], body[:80]))
                 if disc and iface == "asgi":
